@@ -197,6 +197,9 @@ func evalOne(str string, preds SPred, stats *SS) []evalIssue {
 		tag := "v" + ver.Name + "/ParseVector/"
 		var obj vecObj
 		var err error
+		// primer: a valid full vector of the version is parsed first, so that every scratch buffer / memo the
+		// parser may keep between calls holds the most "helpful" stale content when str is parsed
+		Safely(func() { p.parse(primerOf(p)) })
 		if pv := Safely(func() { obj, err = p.parse(str) }); pv != nil {
 			if preds&SAccept != 0 {
 				issues = append(issues, evalIssue{tag + "panic", "no panic", fmt.Sprint(pv)})
@@ -384,4 +387,20 @@ func otherObjs(p *parserImpl) []vecObj {
 	}
 	otherMap[p] = out
 	return out
+}
+
+var (
+	primerMu  sync.Mutex
+	primerMap = map[*parserImpl]string{}
+)
+
+func primerOf(p *parserImpl) string {
+	primerMu.Lock()
+	defer primerMu.Unlock()
+	if s, ok := primerMap[p]; ok {
+		return s
+	}
+	s := p.ver.Join(elemsOf(p.ver, definedRot(p.ver, 0), nil))
+	primerMap[p] = s
+	return s
 }
